@@ -30,8 +30,8 @@ type c08Script struct {
 	rdb       []byte
 	waitFull  time.Duration // when WaitFull is closed, relative to the handshake
 	segs      []c08Seg
-	dropAfter int // index of the segment after which the source drops the link (-1: never)
-	refuse    int // reconnect attempts refused before one is accepted
+	dropAfter int  // index of the segment after which the source drops the link (-1: never)
+	refuse    int  // reconnect attempts refused before one is accepted
 	psyncErr  bool // the first reconnect is answered with an error to PSYNC (the tool then waits 30 s): thorough tier only
 }
 
@@ -251,7 +251,7 @@ func runC08(s c08Script) c08Outcome {
 					}
 					continue
 				}
-				if r.At.Before(wf.Add(1100 * time.Millisecond)) && v == 0 {
+				if r.At.Before(wf.Add(1100*time.Millisecond)) && v == 0 {
 					continue // tick straddling the moment WaitFull was closed
 				}
 				if v > s.start+sent {
